@@ -232,3 +232,18 @@ Theorem C15_stream_consts :
 Proof. exact archive_stream_consts_ok. Qed.
 Print Assumptions C15_stream_consts.
 
+(* ------------------------------------------------------------------------------------ *)
+(* THE HEADER CODEC HYPOTHESIS, tied to the code.  [hdr_ok] ("the writer's decoder inverts
+   the reader's encoder; no newline in an encoded header") is the one premise about
+   marshalSourceFile + zlib + base64 / base64 + zlib + unmarshalSourceFile.  Its boolean form
+   is what the correspondence run evaluates with [hdr] and [parse] instantiated by the REAL
+   encoder's output and the REAL decoder's result, on every entry of every generated tree and
+   on strata of headers that compress arbitrarily well (deep repetitive paths, runs of one
+   character up to 255 bytes, paths of ~4000 bytes and beyond): if that boolean holds for the
+   entries, the premise of C15_writer / C15_roundtrip / C15_mode_tree holds for them.  No bound
+   on length (json) / length (hdr m) appears anywhere. *)
+Theorem C15_header_tie : forall hdr parse es,
+  forallb (ahdr_okb hdr parse) es = true -> Forall (hdr_ok hdr parse) es.
+Proof. exact ahdr_okb_all. Qed.
+Print Assumptions C15_header_tie.
+
